@@ -531,3 +531,49 @@ func init() {
 		return mkStr(append(out, byte('"')))
 	}
 }
+
+// itoaBytes renders a symbolic integer in decimal as a byte-vector string: forks on sign
+// and number of digits; digits are fresh variables defined by x = sum d_k*10^k (no division).
+// width > 0 requests zero padding to that width (fmt's %0*d).
+func (r *Run) itoaBytes(x symv, width int) value {
+	neg := r.branch(symv{'b', "(bvslt " + x.term + " " + bvlit(0) + ")"})
+	mag := x.term
+	if neg {
+		mag = "(bvneg " + x.term + ")"
+	}
+	nd := 1
+	pow := int64(10)
+	for nd < 19 {
+		if r.branch(symv{'b', "(bvult " + mag + " " + bvlit(pow) + ")"}) {
+			break
+		}
+		nd++
+		pow *= 10
+	}
+	r.itoaCtr++
+	sum := ""
+	var digs []value
+	p := int64(1)
+	for k := 0; k < nd; k++ {
+		dn := fmt.Sprintf("itoa!%d!d%d", r.itoaCtr, k)
+		r.Z.Send("(declare-const " + dn + " (_ BitVec 64))")
+		r.addPC("(bvule " + dn + " " + bvlit(9) + ")")
+		t := "(bvmul " + dn + " " + bvlit(p) + ")"
+		if sum == "" {
+			sum = t
+		} else {
+			sum = "(bvadd " + sum + " " + t + ")"
+		}
+		digs = append([]value{symv{'i', "(bvadd " + dn + " " + bvlit('0') + ")"}}, digs...)
+		p *= 10
+	}
+	r.addPC("(= " + mag + " " + sum + ")")
+	var out []value
+	if neg {
+		out = append(out, byte('-'))
+	}
+	for len(out)+len(digs) < width {
+		out = append(out, byte('0'))
+	}
+	return mkStr(append(out, digs...))
+}
